@@ -961,7 +961,7 @@ func TestC04(t *testing.T) {
 	}
 	rec.R.Exhaustive = true
 	rec.Flush()
-	total := 3000 / cfg.NShards
+	total := 30000 / cfg.NShards
 	if cfg.Thorough() {
 		total = 400000 / cfg.NShards
 	}
